@@ -40,9 +40,37 @@ func shortCallee(c *ssa.CallCommon) string {
 	return n
 }
 
+// shortType prints a type with package names (not paths) and without parameter names.
 func shortType(t types.Type) string {
-	s := types.TypeString(t, func(p *types.Package) string { return p.Name() })
-	return s
+	q := func(p *types.Package) string { return p.Name() }
+	switch x := t.(type) {
+	case *types.Pointer:
+		return "*" + shortType(x.Elem())
+	case *types.Slice:
+		return "[]" + shortType(x.Elem())
+	case *types.Array:
+		return fmt.Sprintf("[%d]%s", x.Len(), shortType(x.Elem()))
+	case *types.Map:
+		return "map[" + shortType(x.Key()) + "]" + shortType(x.Elem())
+	case *types.Chan:
+		return "chan " + shortType(x.Elem())
+	case *types.Signature:
+		tuple := func(tp *types.Tuple) string {
+			var parts []string
+			for i := 0; i < tp.Len(); i++ {
+				parts = append(parts, shortType(tp.At(i).Type()))
+			}
+			return strings.Join(parts, ", ")
+		}
+		s := "func(" + tuple(x.Params()) + ")"
+		if x.Results().Len() == 1 {
+			s += " " + tuple(x.Results())
+		} else if x.Results().Len() > 1 {
+			s += " (" + tuple(x.Results()) + ")"
+		}
+		return s
+	}
+	return types.TypeString(t, q)
 }
 
 // negText renders the negation of a boolean value in a normal form: double negations cancel and a
